@@ -109,6 +109,38 @@ theorem soDeleteX_eq (A : AllIDs) (s : Tx.St) (lo : Low) (j : Nat) :
     cases hob : s.obsolete <;> txrun <;> simp [viewT_eq, view_T_eq, encDel, delAdd, hg]
     split <;> simp_all
 
+theorem decValues_encValues (c : Col) (v : Int) : decValues (encValues c v) = some (c, v) := by
+  simp only [encValues, decValues]
+  by_cases h : v < 0
+  · simp only [h, decide_true, if_true]
+    have : -((v.natAbs : Nat) : Int) = v := by rw [Int.ofNat_natAbs_of_nonpos (by omega)]; omega
+    rw [this]
+  · simp only [h, decide_false, Bool.false_eq_true, if_false]
+    have : ((v.natAbs : Nat) : Int) = v := Int.natAbs_of_nonneg (by omega)
+    rw [this]
+
+theorem soUpdateX_eq (A : AllIDs) (s : Tx.St) (lo : Low) (j : Nat) (c : Col) (v : Tx.Val) :
+    soUpdateX A (img s lo) j c v =
+      if s.obsolete then .exc (img (soUpdate s j c v).1 lo) ⟨.assertionError, 0⟩
+      else .ret (img (soUpdate s j c v).1 lo) .none := by
+  unfold soUpdateX SO_updateProg SO_update_nlocals soUpdate
+  obtain ⟨hd1, hd2⟩ := delDict_encDel s.upd
+  have hdv := decValues_encValues c v
+  cases hg : vdGet (Val.int (clsOf (s.t.insts j).key)) (encDel s.upd) with
+  | none =>
+    cases hob : s.obsolete <;> txrun <;> simp [viewT_eq, view_T_eq, encDel, delAdd, vlSnoc, hg]
+  | some l0 =>
+    have := hd2 _ _ hg
+    cases hob : s.obsolete <;> txrun <;> simp [viewT_eq, view_T_eq, encDel, delAdd, hg]
+
+theorem opSet_T_eq (s : Tx.St) (j : Nat) (c : Col) (v : Tx.Val) (hj : j < s.t.n) :
+    opSet s .T j c v = afterSoUpdate (soUpdate s j c v) j c v := by
+  have : ¬ (j ≥ s.t.n) := by omega
+  unfold opSet soUpdate afterSoUpdate
+  simp only [St.conn, this, if_false]
+  cases s.obsolete <;> simp
+  rfl
+
 theorem opDestroy_T_eq (s : Tx.St) (j : Nat) (hj : j < s.t.n) : opDestroy s .T j = afterSoDelete (soDelete s j) j := by
   have : ¬ (j ≥ s.t.n) := by omega
   unfold opDestroy soDelete afterSoDelete
@@ -122,7 +154,7 @@ theorem assertActiveX_eq (A : AllIDs) (s : Tx.St) (lo : Low) :
   cases h : s.obsolete <;> txrun <;> simp [St.refused, h]
 
 theorem makeObsoleteX_eq (A : AllIDs) (s : Tx.St) (lo : Low) (h : s.obsolete = false) :
-    makeObsoleteX A (img s lo) = .ret (img { s with obsolete := true, del := [] } lo.release) .none := by
+    makeObsoleteX A (img s lo) = .ret (img { s with obsolete := true, del := [], upd := [] } lo.release) .none := by
   unfold makeObsoleteX makeObsoleteProg makeObsolete_nlocals
   cases hac : lo.ac <;> txrun <;> simp [Low.release, encDel, hac]
 
